@@ -8,6 +8,8 @@ import copy
 import hashlib
 import io
 import random
+import re
+import sys
 
 
 STEP_BUDGET = 300000
@@ -60,6 +62,20 @@ def _install_budget():
                 fn = getattr(a, "__func__", a)
                 if isinstance(fn, types.FunctionType):
                     walk(fn.__code__)
+
+
+def _s(x):
+    """str() without object addresses (a class without __str__ prints one)."""
+    return re.sub(r" at 0x[0-9a-fA-F]+", "", str(x))
+
+
+def _depth():
+    f = sys._getframe()
+    n = 0
+    while f is not None:
+        n += 1
+        f = f.f_back
+    return n
 
 
 def _sha(s):
@@ -149,13 +165,13 @@ def observe_module(module, seed, n_inputs=3, with_text=False):
     ob = {
         "listing": _sha(text),
         "functions": list(module.Functions.keys()),
-        "globals": [[k, str(v)] for k, v in module.Globals.items()],
+        "globals": [[k, _s(v)] for k, v in module.Globals.items()],
         "imports": sorted(module.Imports),
         "metadata": {
-            "functions": [f.GetMangledName() + "|" + str(f) + "|" + ",".join(f"{k}:{v}" for k, v in f.GetArgumentTypes().items())
+            "functions": [f.GetMangledName() + "|" + _s(f) + "|" + ",".join(f"{k}:{_s(v)}" for k, v in f.GetArgumentTypes().items())
                           + "|exported=" + str(bool(getattr(f, "exported", False)))
                           for f in module.Metadata.get("functions", [])],
-            "types": {k: str(v) for k, v in module.Metadata.get("types", {}).items()},
+            "types": {k: _s(v) for k, v in module.Metadata.get("types", {}).items()},
         },
     }
     if with_text:
@@ -188,15 +204,25 @@ def observe_module(module, seed, n_inputs=3, with_text=False):
                 vm.SetGlobal(g, copy.deepcopy(gl[g]))
             _counter["n"] = 0
             _counter["limit"] = STEP_BUDGET
+            # the same Python stack headroom whatever process (and call depth) this runs in
+            old_limit = sys.getrecursionlimit()
+            sys.setrecursionlimit(_depth() + 960)
+            cut = False
             try:
                 r = vm.Invoke(fname, **copy.deepcopy(args))
                 res = ["ret", jsonable(r)]
+            except (RecursionError, StepBudget) as e:
+                # cut off by a resource bound, not by the program: where exactly is not part of the
+                # observation (so neither is the state it leaves)
+                res = ["exc", type(e).__name__]
+                cut = True
             except Exception as e:
                 res = ["exc", type(e).__name__]
             finally:
                 _counter["limit"] = None
+                sys.setrecursionlimit(old_limit)
             n += 1
-            beh.append([fname, k, res, {g: jsonable(vm.GetGlobal(g)) for g in sorted(gl)}])
+            beh.append([fname, k, res, "cut" if cut else {g: jsonable(vm.GetGlobal(g)) for g in sorted(gl)}])
     ob["behaviour"] = beh
     ob["invocations"] = n
     return ob
